@@ -1,5 +1,5 @@
 /-
-  Proofs/C11_NumAll.lean — assembles the 16 kernel obligations `bfChunk_<kk>` into statements about every 16-bit pattern.
+  Proofs/C11_NumAll.lean — assembles the 64 kernel obligations `bfChunk_<kk>` into statements about every 16-bit pattern.
 -/
 import BitstringModel.Proofs.C11
 import BitstringModel.Proofs.C11_Bf_00
@@ -18,12 +18,60 @@ import BitstringModel.Proofs.C11_Bf_12
 import BitstringModel.Proofs.C11_Bf_13
 import BitstringModel.Proofs.C11_Bf_14
 import BitstringModel.Proofs.C11_Bf_15
+import BitstringModel.Proofs.C11_Bf_16
+import BitstringModel.Proofs.C11_Bf_17
+import BitstringModel.Proofs.C11_Bf_18
+import BitstringModel.Proofs.C11_Bf_19
+import BitstringModel.Proofs.C11_Bf_20
+import BitstringModel.Proofs.C11_Bf_21
+import BitstringModel.Proofs.C11_Bf_22
+import BitstringModel.Proofs.C11_Bf_23
+import BitstringModel.Proofs.C11_Bf_24
+import BitstringModel.Proofs.C11_Bf_25
+import BitstringModel.Proofs.C11_Bf_26
+import BitstringModel.Proofs.C11_Bf_27
+import BitstringModel.Proofs.C11_Bf_28
+import BitstringModel.Proofs.C11_Bf_29
+import BitstringModel.Proofs.C11_Bf_30
+import BitstringModel.Proofs.C11_Bf_31
+import BitstringModel.Proofs.C11_Bf_32
+import BitstringModel.Proofs.C11_Bf_33
+import BitstringModel.Proofs.C11_Bf_34
+import BitstringModel.Proofs.C11_Bf_35
+import BitstringModel.Proofs.C11_Bf_36
+import BitstringModel.Proofs.C11_Bf_37
+import BitstringModel.Proofs.C11_Bf_38
+import BitstringModel.Proofs.C11_Bf_39
+import BitstringModel.Proofs.C11_Bf_40
+import BitstringModel.Proofs.C11_Bf_41
+import BitstringModel.Proofs.C11_Bf_42
+import BitstringModel.Proofs.C11_Bf_43
+import BitstringModel.Proofs.C11_Bf_44
+import BitstringModel.Proofs.C11_Bf_45
+import BitstringModel.Proofs.C11_Bf_46
+import BitstringModel.Proofs.C11_Bf_47
+import BitstringModel.Proofs.C11_Bf_48
+import BitstringModel.Proofs.C11_Bf_49
+import BitstringModel.Proofs.C11_Bf_50
+import BitstringModel.Proofs.C11_Bf_51
+import BitstringModel.Proofs.C11_Bf_52
+import BitstringModel.Proofs.C11_Bf_53
+import BitstringModel.Proofs.C11_Bf_54
+import BitstringModel.Proofs.C11_Bf_55
+import BitstringModel.Proofs.C11_Bf_56
+import BitstringModel.Proofs.C11_Bf_57
+import BitstringModel.Proofs.C11_Bf_58
+import BitstringModel.Proofs.C11_Bf_59
+import BitstringModel.Proofs.C11_Bf_60
+import BitstringModel.Proofs.C11_Bf_61
+import BitstringModel.Proofs.C11_Bf_62
+import BitstringModel.Proofs.C11_Bf_63
 
 namespace BM.C11
 open BM
 
 theorem bfChk_all (c : Nat) (hc : c < 65536) : bfChk c = true := by
-  have key : ∀ k, k < 16 → bfChunkOk k = true := fun k hk =>
+  have key : ∀ k, k < 64 → bfChunkOk k = true := fun k hk =>
     match k, hk with
     | 0, _ => bfChunk_00
     | 1, _ => bfChunk_01
@@ -41,9 +89,57 @@ theorem bfChk_all (c : Nat) (hc : c < 65536) : bfChk c = true := by
     | 13, _ => bfChunk_13
     | 14, _ => bfChunk_14
     | 15, _ => bfChunk_15
-    | k + 16, hk => absurd hk (by omega)
-  have := allBelow_spec (key (c / 4096) (by omega)) (c % 4096) (by omega)
-  have e : 4096 * (c / 4096) + c % 4096 = c := by omega
+    | 16, _ => bfChunk_16
+    | 17, _ => bfChunk_17
+    | 18, _ => bfChunk_18
+    | 19, _ => bfChunk_19
+    | 20, _ => bfChunk_20
+    | 21, _ => bfChunk_21
+    | 22, _ => bfChunk_22
+    | 23, _ => bfChunk_23
+    | 24, _ => bfChunk_24
+    | 25, _ => bfChunk_25
+    | 26, _ => bfChunk_26
+    | 27, _ => bfChunk_27
+    | 28, _ => bfChunk_28
+    | 29, _ => bfChunk_29
+    | 30, _ => bfChunk_30
+    | 31, _ => bfChunk_31
+    | 32, _ => bfChunk_32
+    | 33, _ => bfChunk_33
+    | 34, _ => bfChunk_34
+    | 35, _ => bfChunk_35
+    | 36, _ => bfChunk_36
+    | 37, _ => bfChunk_37
+    | 38, _ => bfChunk_38
+    | 39, _ => bfChunk_39
+    | 40, _ => bfChunk_40
+    | 41, _ => bfChunk_41
+    | 42, _ => bfChunk_42
+    | 43, _ => bfChunk_43
+    | 44, _ => bfChunk_44
+    | 45, _ => bfChunk_45
+    | 46, _ => bfChunk_46
+    | 47, _ => bfChunk_47
+    | 48, _ => bfChunk_48
+    | 49, _ => bfChunk_49
+    | 50, _ => bfChunk_50
+    | 51, _ => bfChunk_51
+    | 52, _ => bfChunk_52
+    | 53, _ => bfChunk_53
+    | 54, _ => bfChunk_54
+    | 55, _ => bfChunk_55
+    | 56, _ => bfChunk_56
+    | 57, _ => bfChunk_57
+    | 58, _ => bfChunk_58
+    | 59, _ => bfChunk_59
+    | 60, _ => bfChunk_60
+    | 61, _ => bfChunk_61
+    | 62, _ => bfChunk_62
+    | 63, _ => bfChunk_63
+    | k + 64, hk => absurd hk (by omega)
+  have := allBelow_spec (key (c / 1024) (by omega)) (c % 1024) (by omega)
+  have e : 1024 * (c / 1024) + c % 1024 = c := by omega
   rwa [e] at this
 
 theorem bfChk_spec {c : Nat} (h : bfChk c = true) :
